@@ -215,6 +215,8 @@ class InventoryConverter:
 
     def __call__(self, drow, dformat):
         inv = drow[self.index]
+        if inv is None:
+            return None
         # FIXME:: get_currency_units() returns ZERO and not None when the value
         # isn't present. This should be fixed to distinguish between the two.
         number = inv.get_currency_units(self.currency).number
@@ -236,6 +238,8 @@ def convert_col_Inventory(name, drows, index):
     currency_map = collections.defaultdict(int)
     for drow in drows:
         inv = drow[index]
+        if inv is None:
+            continue
         for currency in inv.currencies():
             currency_map[currency] += 1
     return [InventoryConverter('{} ({})'.format(name, currency), index, currency)
